@@ -6,10 +6,12 @@ import Driver.UxD
 import Driver.AttrAccD
 import Driver.ApiD
 import Driver.CtlD
+import Driver.TconnectD
 
 def main (args : List String) : IO UInt32 := do
   match args with
   | ["attrmap"] => Driver.AttrMapD.main; return 0
+  | ["tconnect"] => Driver.TconnectD.main; return 0
   | ["ctl"] => Driver.CtlD.main; return 0
   | ["api"] => Driver.ApiD.main; return 0
   | ["attracc"] => Driver.AttrAccD.main; return 0
